@@ -85,6 +85,10 @@ class TLCResult:
             self.coverage[k] = self.coverage.get(k, 0) + int(m.group(6))
 
     def trace_text(self):
+        for key in ("Semantic errors", "Parse Error", "Lexical error", "Fatal errors"):
+            i = self.out.find(key)
+            if i >= 0:
+                return self.out[max(0, i - 300):i + 1500]
         i = self.out.find("Error:")
         return self.out[i:i + 6000] if i >= 0 else self.out[-3000:]
 
